@@ -20,6 +20,82 @@ open Fundraising.Gen Fundraising.Go
 def allBidsOf (s : Core) (bidder : Acc) : List Bid :=
   (s.views.flatMap (·.bids)).filter (·.bidder == bidder)
 
+
+/-! ### helpers for `refinement_deliver` -/
+namespace TieRefinement
+
+theorem filter_swap {α : Type} (p q : α → Bool) (l : List α) :
+    (l.filter p).filter q = (l.filter q).filter p := by
+  simp only [List.filter_filter]
+  congr 1
+  funext a
+  exact Bool.and_comm _ _
+
+/-- all bids of all views whose `auction` field is `aid` are the bids of view `aid` -/
+theorem flat_filter_auction (views : List AView)
+    (hau : ∀ (i : Nat) (w : AView), views[i]? = some w → ∀ b ∈ w.bids, b.auction = i)
+    (aid : Nat) (v : AView) (hv : views[aid]? = some v) :
+    (views.flatMap (·.bids)).filter (fun b => decide (b.auction = aid)) = v.bids := by
+  obtain ⟨hlt, he⟩ := List.getElem?_eq_some_iff.mp hv
+  have hsplit : views = views.take aid ++ (v :: views.drop (aid + 1)) := by
+    rw [← he, ← List.drop_eq_getElem_cons hlt, List.take_append_drop]
+  have h1 : ((views.take aid).flatMap (·.bids)).filter (fun b => decide (b.auction = aid)) = [] := by
+    rw [List.filter_eq_nil_iff]
+    intro b hb
+    rw [List.mem_flatMap] at hb
+    obtain ⟨w, hw, hbw⟩ := hb
+    obtain ⟨j, hj, hjw⟩ := List.mem_take_iff_getElem.mp hw
+    have hjv : views[j]? = some w := by rw [← hjw]; exact List.getElem?_eq_getElem _
+    have := hau j w hjv b hbw
+    simp; omega
+  have h2 : ((views.drop (aid + 1)).flatMap (·.bids)).filter (fun b => decide (b.auction = aid)) = [] := by
+    rw [List.filter_eq_nil_iff]
+    intro b hb
+    rw [List.mem_flatMap] at hb
+    obtain ⟨w, hw, hbw⟩ := hb
+    obtain ⟨j, hj, hjw⟩ := List.mem_drop_iff_getElem.mp hw
+    have hjv : views[aid + 1 + j]? = some w := by rw [← hjw]; exact List.getElem?_eq_getElem _
+    have := hau _ w hjv b hbw
+    simp; omega
+  have h3 : v.bids.filter (fun b => decide (b.auction = aid)) = v.bids := by
+    rw [List.filter_eq_self]
+    intro b hb
+    simpa using hau aid v hv b hb
+  rw [hsplit, List.flatMap_append, List.flatMap_cons, List.filter_append, List.filter_append, h1, h2, h3]
+  simp
+
+/-- `hL` of `tie_deliver_place`: of what `GetBidsByBidder` returns, the bids of this auction are
+    the bidder's bids in its view -/
+theorem allBidsOf_filter (s : Core) (hwf : WF s) (bidder : Acc) (aid : Nat) (v : AView)
+    (hv : s.views[aid]? = some v) :
+    ((allBidsOf s bidder).filter (fun b => decide ((b.auction : Int) = (v.a.id : Int)))) =
+      v.bids.filter (·.bidder == bidder) := by
+  have hid := (hwf.views aid v hv).id
+  have hau : ∀ (i : Nat) (w : AView), s.views[i]? = some w → ∀ b ∈ w.bids, b.auction = i := by
+    intro i w hw b hb
+    have W := hwf.views i w hw
+    rw [(W.bids b hb).auction, W.id]
+  have hp : (fun b : Bid => decide ((b.auction : Int) = (v.a.id : Int))) = (fun b => decide (b.auction = aid)) := by
+    funext b
+    rw [hid]
+    simp
+    omega
+  unfold allBidsOf
+  rw [hp, filter_swap, flat_filter_auction s.views hau aid v hv]
+
+/-- `hfresh` of `tie_deliver_place`: ids are `1 … length`, the counter is the length -/
+theorem fresh_of_wf {i : Nat} {v : AView} (W : ViewWF i v) : ∀ x ∈ v.bids, x.id ≠ v.bidSeq + 1 := by
+  intro x hx
+  have h : x.id ∈ v.bids.map (·.id) := List.mem_map.mpr ⟨x, hx, rfl⟩
+  rw [W.bidIds] at h
+  obtain ⟨k, hk, e⟩ := List.mem_map.mp h
+  have := List.mem_range.mp hk
+  rw [W.bidSeq]
+  omega
+
+end TieRefinement
+open TieRefinement
+
 /-- a delivered message, by the translated code: `ValidateBasic`, then the message server -/
 def translatedDeliver (c : Ctx) : Msg → M Ctx
   | .create m =>
@@ -64,7 +140,88 @@ def translatedDeliver (c : Ctx) : Msg → M Ctx
 /-- **Refinement, transactions.**  In every well-formed state, for every message with any field
     values, the model's `deliver` is the interpretation of the translated code. -/
 theorem refinement_deliver (c : Ctx) (hwf : WF c.s) (m : Msg) : deliver c m = translatedDeliver c m := by
-  sorry
+  cases m with
+  | create m =>
+    cases hty : m.type with
+    | fixed =>
+      rw [tie_deliver_createFixed c m hty]
+      simp only [translatedDeliver, hty]
+    | batch =>
+      rw [tie_deliver_createBatch c m hty]
+      simp only [translatedDeliver, hty]
+  | cancel signer aid =>
+    cases hv : c.s.views[aid]? with
+    | some v =>
+      rw [tie_deliver_cancel c signer aid v hv (hwf.views aid v hv).id]
+      simp only [translatedDeliver, hv]
+    | none =>
+      have h1 := tie_CancelAuction_noAuction c signer aid hv default c.s.bank
+      simp only [translatedDeliver, hv, tie_MsgServer_CancelAuction, h1.2]
+      simp only [deliver, handle, h1.1]
+      cases hb : validateBasic (.cancel signer aid) <;>
+        simp [Ctx.check, Ctx.fail, bind, Except.bind]
+  | place bidder aid ty price denom amt =>
+    cases ty with
+    | none =>
+      have hvb := tie_ValidateBasic_place ⟨bidder, aid, none, price, denom, amt⟩
+      simp only at hvb
+      simp only [translatedDeliver, hvb]
+      unfold deliver
+      simp [validateBasic, Ctx.check, Ctx.fail, bind, Except.bind]
+    | some t =>
+      cases hv : c.s.views[aid]? with
+      | some v =>
+        have W := hwf.views aid v hv
+        rw [tie_deliver_place c bidder aid t price denom amt (allBidsOf c.s bidder) v hv (fresh_of_wf W)
+          (allBidsOf_filter c.s hwf bidder aid v hv)]
+        simp only [translatedDeliver, hv]
+      | none =>
+        have h1 := tie_PlaceBid_noAuction c bidder aid t price denom amt hv default 0 [] default true
+        simp only [translatedDeliver, hv, tie_MsgServer_PlaceBid, h1.2]
+        simp only [deliver, handle, h1.1]
+        cases hb : validateBasic (.place bidder aid (some t) price denom amt) <;>
+          simp [Ctx.check, Ctx.fail, bind, Except.bind]
+  | modify bidder aid bidId price denom amt =>
+    cases hv : c.s.views[aid]? with
+    | some v =>
+      have W := hwf.views aid v hv
+      rw [tie_deliver_modify c bidder aid bidId price denom amt v hv
+        (fun b hb => ⟨(W.bids b hb).amt, (W.bids b hb).price⟩)]
+      simp only [translatedDeliver, hv]
+    | none =>
+      have h1 := tie_ModifyBid_noAuction c bidder aid bidId price denom amt hv default default true
+      simp only [translatedDeliver, hv, tie_MsgServer_ModifyBid, h1.2]
+      simp only [deliver, handle, h1.1]
+      cases hb : validateBasic (.modify bidder aid bidId price denom amt) <;>
+        simp [Ctx.check, Ctx.fail, bind, Except.bind]
+  | addAllowed aid ab =>
+    have hvb := tie_ValidateBasic_addAllowed ⟨aid, ab⟩
+    simp only at hvb
+    cases hacc : validAcc ab.bidder with
+    | false =>
+      have hb : validateBasic (.addAllowed aid ab) = false := by simpa [validateBasic] using hacc
+      simp only [translatedDeliver, hvb, hb]
+      unfold deliver
+      simp [hb, Ctx.check, Ctx.fail, bind, Except.bind]
+    | true =>
+      have hb : validateBasic (.addAllowed aid ab) = true := by simpa [validateBasic] using hacc
+      cases hv : c.s.views[aid]? with
+      | some v =>
+        simp only [translatedDeliver, hvb, hb, hv]
+        unfold deliver
+        rw [tie_MsgServer_AddAllowedBidder c aid ab hacc v hv]
+        simp [hb, Ctx.check, bind, Except.bind]
+      | none =>
+        have h1 := tie_AddAllowedBidders_noAuction c aid [ab] hv default
+        simp only [translatedDeliver, hvb, hb, hv]
+        simp only [deliver, handle, Gen.MsgServer_AddAllowedBidder, h1.1, h1.2, hacc]
+        cases he : c.s.enableAdd <;> simp [hb, Ctx.check, Ctx.fail, bind, Except.bind]
+  | updateParams signer p =>
+    have h1 := (tie_MsgServer_UpdateParams c signer p).2
+    simp only [translatedDeliver]
+    rw [← h1]
+    unfold deliver
+    simp [validateBasic, Ctx.check, bind, Except.bind]
 
 /-- … in particular in every reachable state -/
 theorem refinement_deliver_reach (st : State) (h : Reach st) (m : Msg) :
@@ -98,10 +255,77 @@ def translatedBlock (c : Ctx) (t : Int) : M Ctx :=
   let c := { c with s := { c.s with now := t } }
   translatedLoop c (c.s.views.map (·.a))
 
+/-- **one iteration**: on the record of a well-formed view, the translated dispatch and
+    executor are the model's `blockStep` -/
+theorem translatedExec_eq_blockStep (c : Ctx) (aid : Nat) (v : AView) (hv : c.s.views[aid]? = some v)
+    (W : ViewWF aid v) : translatedExec c v.a = blockStep c aid := by
+  have hid := W.id
+  unfold translatedExec
+  rw [tie_BeginBlocker]
+  cases hst : v.a.status with
+  | standby =>
+    simp only [List.filterMap_cons, List.filterMap_nil, dispatchEff, hst, hid]
+    exact (tie_ExecuteStandByStatus c aid v hv hst).symm
+  | started =>
+    simp only [List.filterMap_cons, List.filterMap_nil, dispatchEff, hst, hid]
+    exact (tie_ExecuteStartedStatus c aid v hv hst W.auction.endNonempty).symm
+  | vesting =>
+    simp only [List.filterMap_cons, List.filterMap_nil, dispatchEff, hst, hid, hv]
+    rw [tie_ExecuteVestingStatus c aid v hv hst]
+    exact (tie_ReleaseVestingPayingCoin c aid v hv hid).symm
+  | finished =>
+    simp only [List.filterMap_cons, List.filterMap_nil, dispatchEff, hst]
+    exact (tie_blockStep_terminal c aid v hv (Or.inl hst)).1.symm
+  | cancelled =>
+    simp only [List.filterMap_cons, List.filterMap_nil, dispatchEff, hst]
+    exact (tie_blockStep_terminal c aid v hv (Or.inr hst)).1.symm
+
+/-- the loop, from index `k` on: the model reads each view FRESH, the translated code iterates
+    over the SNAPSHOT `rest` of the records not yet processed; they agree because an iteration
+    does not touch the views of the other auctions (`blockStep_foot`) -/
+theorem blockLoop_eq_translatedLoop : ∀ (rest : List Auction) (k : Nat) (c : Ctx),
+    (∀ j, (c.s.views[k + j]?).map (·.a) = rest[j]?) →
+    (∀ j v, k ≤ j → c.s.views[j]? = some v → ViewWF j v) →
+    blockLoop c (List.range' k rest.length) = translatedLoop c rest := by
+  intro rest
+  induction rest with
+  | nil => intro k c _ _; rfl
+  | cons a rest ih =>
+    intro k c hsnap hW
+    have h0 := hsnap 0
+    simp only [Nat.add_zero, List.getElem?_cons_zero, Option.map_eq_some_iff] at h0
+    obtain ⟨v, hv, hva⟩ := h0
+    subst hva
+    simp only [List.length_cons, List.range'_succ, blockLoop, translatedLoop]
+    rw [translatedExec_eq_blockStep c k v hv (hW k v (Nat.le_refl _) hv)]
+    cases hstep : blockStep c k with
+    | error e => rfl
+    | ok c1 =>
+      obtain ⟨hoth, _, _⟩ := ProgressInv.blockStep_foot hstep
+      simp only [bind, Except.bind]
+      apply ih (k + 1) c1
+      · intro j
+        rw [hoth (k + 1 + j) (by omega)]
+        have := hsnap (j + 1)
+        simp only [List.getElem?_cons_succ] at this
+        rw [← this]
+        congr 2
+        omega
+      · intro j w hj hw
+        rw [hoth j (by omega)] at hw
+        exact hW j w (by omega) hw
+
 /-- **Refinement, blocks.**  In every well-formed state the model's `beginBlock` is the translated
     `BeginBlocker` run over the snapshot of the auction records taken at the start of the block
     (processing one auction never changes the record of another: the frame property). -/
 theorem refinement_block (c : Ctx) (hwf : WF c.s) (t : Int) : beginBlock c t = translatedBlock c t := by
-  sorry
+  unfold beginBlock translatedBlock
+  simp only
+  have h := blockLoop_eq_translatedLoop (c.s.views.map (·.a)) 0
+    { c with s := { c.s with now := t } }
+    (by intro j; simp)
+    (by intro j v _ hv; exact hwf.views j v hv)
+  simp only [List.length_map] at h
+  rw [← h, List.range_eq_range']
 
 end Fundraising
